@@ -1,6 +1,472 @@
+/-
+  C12 — subsampling (rarefaction) draws exactly n counts per vector, never inventing any.
+
+  Model of: `biom/_subsample.pyx` (`_subsample_without_replacement`: the running-offset walk with
+  its four counters, the `counts_sum < n` early exit, the tail clean-up, every read of
+  `intdata[el]`/write of `data[start+el]` bounds-checked; `_subsample_with_replacement`: one
+  multinomial draw per vector) and of `Table.subsample` around it (copy, sparse layout along the
+  requested axis, kernel per vector, `eliminate_zeros`, the emptiness filter on the axis and then on
+  the other axis; the by-ID path).
+
+  The random generator is a parameter: what `rng.choice(total, n, replace=False)` returned for
+  each vector, what `rng.multinomial(n, p)` returned, what `rng.shuffle(ids)` left behind are
+  INPUTS of the model.  scipy's layout (which entries of a vector are stored, in which order) is
+  an input too (`Lay`), tied to the table by the hypothesis `layOK`.
+
+  A table is seen along the subsampled axis (`View`): IDs on the axis, IDs on the other axis,
+  and `data(id, axis)` for every ID on the axis.  `holds` is stated on such observations only.
+-/
 import BiomModel.Codec
 open Lean
+
 namespace Biom.C12
-/-- stub: not built yet -/
-def handle (_req : Json) : Codec.R Json := .error "C12: model not built yet"
+
+/-! ### the kernel, one vector, without replacement -/
+
+/-- insertion into a sorted list (`permuted.sort()`; structural, so closed examples evaluate) -/
+def ins (x : Nat) : List Nat → List Nat
+  | [] => [x]
+  | y :: ys => if x ≤ y then x :: y :: ys else y :: ins x ys
+
+def isort : List Nat → List Nat
+  | [] => []
+  | x :: xs => ins x (isort xs)
+
+/-- the loop state of `_subsample_without_replacement` for one vector:
+`out` is `data[start:end]` (written in place), `el`, `count_el`, `count_rem`, `el_cnt`. -/
+structure W where
+  out : List Nat
+  el : Nat
+  countEl : Nat
+  countRem : Nat
+  elCnt : Nat
+  deriving Repr, DecidableEq
+
+/-- `while (perm_count_el - count_el) >= count_rem:` with fuel; reads and writes are checked -/
+def walkSkip (counts : List Nat) (p : Nat) : Nat → W → Except Err W
+  | 0, _ => .error .index
+  | fuel + 1, w =>
+    if p - w.countEl ≥ w.countRem then
+      match putE w.out w.el w.elCnt with
+      | .error e => .error e
+      | .ok out =>
+        match getE counts (w.el + 1) with
+        | .error e => .error e
+        | .ok next =>
+          walkSkip counts p fuel
+            { out := out, el := w.el + 1, countEl := w.countEl + w.countRem, countRem := next, elCnt := 0 }
+    else .ok w
+
+/-- one iteration of `for idx in range(n)` -/
+def walkStep (counts : List Nat) (w : W) (p : Nat) : Except Err W :=
+  match walkSkip counts p (counts.length + 1) w with
+  | .error e => .error e
+  | .ok w1 =>
+    .ok { w1 with elCnt := w1.elCnt + 1, countRem := w1.countRem - (p - w1.countEl), countEl := p }
+
+def walkLoop (counts : List Nat) : List Nat → W → Except Err W
+  | [], w => .ok w
+  | p :: ps, w =>
+    match walkStep counts w p with
+    | .error e => .error e
+    | .ok w1 => walkLoop counts ps w1
+
+/-- `data[start+el+1:end] = 0` -/
+def zeroTail (out : List Nat) (k : Nat) : List Nat :=
+  out.take k ++ List.replicate (out.length - k) 0
+
+/-- the walk over one vector for SORTED chosen positions (`count_rem = intdata[0]` first) -/
+def walk (counts chosen : List Nat) : Except Err (List Nat) :=
+  match getE counts 0 with
+  | .error e => .error e
+  | .ok c0 =>
+    match walkLoop counts chosen { out := counts, el := 0, countEl := 0, countRem := c0, elCnt := 0 } with
+    | .error e => .error e
+    | .ok w =>
+      match putE w.out w.el w.elCnt with
+      | .error e => .error e
+      | .ok out => .ok (zeroTail out (w.el + 1))
+
+/-- what the kernel does with the array `rng.choice` returned: sort it, read `permuted[0..n)` -/
+def subsampleVec (n : Nat) (counts chosen : List Nat) : Except Err (List Nat) :=
+  let s := isort chosen
+  if s.length < n then .error .index else walk counts (s.take n)
+
+/-- `for i in range(indptr.shape[0] - 1)`: vectors whose total is below `n` are zeroed without
+consulting the generator; the others consume the generator's next answer. -/
+def kernelWithout (n : Nat) : List (List Nat) → List (List Nat) → Except Err (List (List Nat))
+  | [], _ => .ok []
+  | v :: vs, ch =>
+    if v.sum < n then
+      match kernelWithout n vs ch with
+      | .error e => .error e
+      | .ok r => .ok (v.map (fun _ => 0) :: r)
+    else
+      match ch with
+      | [] => .error .other
+      | c :: cs =>
+        match subsampleVec n v c with
+        | .error e => .error e
+        | .ok w =>
+          match kernelWithout n vs cs with
+          | .error e => .error e
+          | .ok r => .ok (w :: r)
+
+/-- with replacement: `data[start:end] = rng.multinomial(n, pvals)`.  numpy's multinomial refuses
+an empty `pvals` (ValueError); a vector of another length cannot be assigned to the slice. -/
+def kernelWith : List (List Nat) → List (List Nat) → Except Err (List (List Nat))
+  | [], _ => .ok []
+  | v :: vs, ms =>
+    if v.length = 0 then .error .value
+    else
+      match ms with
+      | [] => .error .other
+      | m :: ms' =>
+        if m.length ≠ v.length then .error .value
+        else
+          match kernelWith vs ms' with
+          | .error e => .error e
+          | .ok r => .ok (m :: r)
+
+/-! ### the specification of the walk: a histogram of positions over the entries' intervals -/
+
+/-- number of chosen positions in `[base, base + c)` for each entry `c`, intervals laid end to end -/
+def histFrom (base : Nat) : List Nat → List Nat → List Nat
+  | [], _ => []
+  | c :: cs, chosen =>
+    chosen.countP (fun p => decide (base ≤ p) && decide (p < base + c)) :: histFrom (base + c) cs chosen
+
+def hist (counts chosen : List Nat) : List Nat := histFrom 0 counts chosen
+
+/-- start of entry `j`'s interval: the total of the entries before it -/
+def prefixSum (counts : List Nat) (j : Nat) : Nat := (counts.take j).sum
+
+/-! ### a table seen along the subsampled axis -/
+
+structure View where
+  ids : List Id
+  oids : List Id
+  vecs : List (List Nat)
+  deriving Repr, DecidableEq, BEq
+
+namespace View
+def vec? (t : View) (id : Id) : Option (List Nat) := lookupBy t.ids t.vecs id
+def cell? (t : View) (id o : Id) : Option Nat := (t.vec? id).bind (fun v => lookupBy t.oids v o)
+def total (t : View) (id : Id) : Nat := ((t.vec? id).getD []).sum
+def wfb (t : View) : Bool :=
+  t.vecs.length == t.ids.length && t.vecs.all (fun v => v.length == t.oids.length)
+end View
+
+/-- stored entries of one vector in storage order: minor indices and values -/
+abbrev LVec := List Nat × List Nat
+abbrev Lay := List LVec
+
+/-- value at minor position `j`: first stored entry with that index, else 0 -/
+def lookupN : List Nat → List Nat → Nat → Nat
+  | i :: is, v :: vs, j => if i = j then v else lookupN is vs j
+  | _, _, _ => 0
+
+def scatter (m : Nat) (idx vals : List Nat) : List Nat := (List.range m).map (lookupN idx vals)
+
+/-- `eliminate_zeros()` on one vector's stored entries -/
+def elimZeros : List Nat → List Nat → LVec
+  | i :: is, v :: vs =>
+    let r := elimZeros is vs
+    if v = 0 then r else (i :: r.1, v :: r.2)
+  | _, _ => ([], [])
+
+def addV (a b : List Nat) : List Nat := List.zipWith (· + ·) a b
+
+/-- totals along the other axis -/
+def colSums (m : Nat) (d : List (List Nat)) : List Nat := d.foldr addV (List.replicate m 0)
+
+/-- `table.filter(lambda v, i, md: v.sum() > 0, axis=inv_axis)` -/
+def otherFilter (ids oids : List Id) (d : List (List Nat)) : View :=
+  let mask := (colSums oids.length d).map (fun s => decide (0 < s))
+  { ids := ids, oids := filterMask oids mask, vecs := d.map (fun v => filterMask v mask) }
+
+/-- write-back of the kernel's values, `eliminate_zeros`, dense content per vector -/
+def denseAfter (m : Nat) (lay : Lay) (outs : List (List Nat)) : List (List Nat) :=
+  (lay.zip outs).map (fun lo => let e := elimZeros lo.1.1 lo.2; scatter m e.1 e.2)
+
+/-- the two emptiness filters -/
+def finish (t : View) (dense : List (List Nat)) : View :=
+  let keep := dense.map (fun v => decide (0 < v.sum))
+  otherFilter (filterMask t.ids keep) t.oids (filterMask dense keep)
+
+inductive Mode where
+  | without | withRepl | byId
+  deriving Repr, DecidableEq, BEq
+
+/-- everything the generator returned during one call -/
+structure Rng where
+  choices : List (List Nat) := []
+  multis : List (List Nat) := []
+  shuffled : List Id := []
+  deriving Repr, DecidableEq
+
+/-- `Table.subsample(n, axis, by_id, with_replacement)` seen along `axis` -/
+def subsample (t : View) (lay : Lay) (n : Nat) (mode : Mode) (rng : Rng) : Except Err View :=
+  match mode with
+  | .byId =>
+    let keep := t.ids.map (fun id => (rng.shuffled.take n).contains id)
+    .ok (otherFilter (filterMask t.ids keep) t.oids (filterMask t.vecs keep))
+  | .without =>
+    match kernelWithout n (lay.map (·.2)) rng.choices with
+    | .error e => .error e
+    | .ok outs => .ok (finish t (denseAfter t.oids.length lay outs))
+  | .withRepl =>
+    match kernelWith (lay.map (·.2)) rng.multis with
+    | .error e => .error e
+    | .ok outs => .ok (finish t (denseAfter t.oids.length lay outs))
+
+/-- what a caller sees: the result (or the exception) and the input table afterwards -/
+structure Obs where
+  result : Except Err View
+  after : View
+
+/-- the call works on `self.copy()`: the input is what it was -/
+def run (t : View) (lay : Lay) (n : Nat) (mode : Mode) (rng : Rng) : Obs :=
+  { result := subsample t lay n mode rng, after := t }
+
+/-! ### hypotheses (decidable) -/
+
+def nodupB [DecidableEq β] : List β → Bool
+  | [] => true
+  | x :: xs => !xs.contains x && nodupB xs
+
+def viewWF (t : View) : Bool := t.wfb && nodupB t.ids && nodupB t.oids
+
+/-- scipy's contract for the layout of one vector: distinct in-range minor indices, one value per
+index, and the dense content is the table's vector -/
+def lvecOK (m : Nat) (v : List Nat) (l : LVec) : Bool :=
+  nodupB l.1 && l.1.all (fun i => decide (i < m)) && l.1.length == l.2.length && scatter m l.1 l.2 == v
+
+def layOK (t : View) (lay : Lay) : Bool :=
+  lay.length == t.vecs.length && (t.vecs.zip lay).all (fun vl => lvecOK t.oids.length vl.1 vl.2)
+
+/-- numpy's contract for `choice(total, n, replace=False)`: `n` distinct positions below `total`;
+one answer for each vector whose total reaches `n`, in order -/
+def choicesOK (n : Nat) : List (List Nat) → List (List Nat) → Bool
+  | [], _ => true
+  | v :: vs, ch =>
+    if v.sum < n then choicesOK n vs ch
+    else
+      match ch with
+      | [] => false
+      | c :: cs => nodupB c && c.length == n && c.all (fun p => decide (p < v.sum)) && choicesOK n vs cs
+
+/-- numpy's contract for `multinomial(n, p)` with p ∝ ceil(data): one natural per entry, summing
+to `n`, zero where `p` is zero -/
+def multisOK (n : Nat) : List (List Nat) → List (List Nat) → Bool
+  | [], _ => true
+  | v :: vs, ms =>
+    match ms with
+    | [] => false
+    | m :: ms' =>
+      m.length == v.length && m.sum == n && (v.zip m).all (fun vm => vm.1 != 0 || vm.2 == 0) &&
+        multisOK n vs ms'
+
+/-! ### the property, on observations only -/
+
+/-- entrywise comparison by ID of a result with the input on the result's IDs -/
+def cellsRel (rel : Nat → Nat → Bool) (t r : View) : Bool :=
+  r.ids.all fun id => r.oids.all fun o =>
+    match r.cell? id o, t.cell? id o with
+    | some a, some b => rel a b
+    | _, _ => false
+
+def clauses (t : View) (n : Nat) (mode : Mode) (o : Obs) : List (String × Bool) :=
+  ("input-unchanged", o.after == t) ::
+  match o.result with
+  | .error _ => [("returns-a-table", false)]
+  | .ok r =>
+    let common : List (String × Bool) :=
+      [("shape", r.wfb),
+       ("other-ids-sublist", r.oids.isSublist t.oids),
+       ("no-empty-other-vector", (colSums r.oids.length r.vecs).all (fun s => decide (0 < s)))]
+    match mode with
+    | .without =>
+      common ++
+      [("retained-iff-total-ge-n", r.ids == t.ids.filter (fun id => decide (n ≤ t.total id))),
+       ("vector-sum-n", r.vecs.all (fun v => v.sum == n)),
+       ("entry-le-original", cellsRel (fun a b => decide (a ≤ b)) t r)]
+    | .withRepl =>
+      common ++
+      [("retained-iff-total-pos", r.ids == t.ids.filter (fun id => decide (0 < t.total id))),
+       ("vector-sum-n", r.vecs.all (fun v => v.sum == n)),
+       ("support-within-original", cellsRel (fun a b => a == 0 || decide (0 < b)) t r)]
+    | .byId =>
+      common ++
+      [("ids-sublist", r.ids.isSublist t.ids),
+       ("keeps-min-n-N", r.ids.length == min n t.ids.length),
+       ("other-ids-nonzero-over-kept",
+          r.oids == filterMask t.oids
+            ((colSums t.oids.length (r.ids.map (fun id => (t.vec? id).getD []))).map (fun s => decide (0 < s)))),
+       ("values-unchanged", cellsRel (fun a b => a == b) t r)]
+
+def holds (t : View) (n : Nat) (mode : Mode) (o : Obs) : Bool :=
+  (clauses t n mode o).all (·.2)
+
+/-- kernel level, one call of `biom.subsample(arr, n, False, rng)` on vectors `vecs`:
+a vector below `n` is zeroed, any other sums to `n` with every entry at most the original -/
+def kernelClauses (n : Nat) (vecs : List (List Nat)) (got : Except Err (List (List Nat))) : List (String × Bool) :=
+  match got with
+  | .error _ => [("kernel-returns", false)]
+  | .ok outs =>
+    [("kernel-shape", outs.length == vecs.length),
+     ("kernel-vectors", (vecs.zip outs).all fun vo =>
+        vo.2.length == vo.1.length &&
+        (if vo.1.sum < n then vo.2.all (· == 0)
+         else vo.2.sum == n && (vo.1.zip vo.2).all (fun ab => decide (ab.2 ≤ ab.1))))]
+
+def kernelHolds (n : Nat) (vecs : List (List Nat)) (got : Except Err (List (List Nat))) : Bool :=
+  (kernelClauses n vecs got).all (·.2)
+
+/-! ### JSON glue -/
+open Codec
+
+def asNatRat (j : Json) : R Nat := do
+  let r ← asRat j
+  if r.den = 1 ∧ 0 ≤ r.num then pure r.num.toNat else .error "not a natural number"
+
+/-- a view whose values may be anything: `none` when some value is not a natural number -/
+def asViewOpt (j : Json) : R (Option View) := do
+  let ids ← listF asStr j "ids"
+  let oids ← listF asStr j "oids"
+  let vecs ← listF (asList asRat) j "vecs"
+  if vecs.all (fun v => v.all (fun r => r.den == 1 && decide (0 ≤ r.num))) then
+    pure (some { ids, oids, vecs := vecs.map (·.map (fun r => r.num.toNat)) })
+  else pure none
+
+def asView (j : Json) : R View := do
+  match (← asViewOpt j) with
+  | some v => pure v
+  | none => .error "view with a value that is not a natural number"
+
+def viewToJson (v : View) : Json :=
+  Json.mkObj [("ids", strsToJson v.ids), ("oids", strsToJson v.oids),
+    ("vecs", .arr (v.vecs.map natsToJson).toArray)]
+
+def asMode (j : Json) : R Mode := do
+  match (← asStr j) with
+  | "without" => pure .without
+  | "with" => pure .withRepl
+  | "byid" => pure .byId
+  | s => .error s!"bad mode {s}"
+
+def asNatLists (j : Json) (k : String) : R (List (List Nat)) :=
+  match optFld j k with
+  | none => pure []
+  | some v => asList (asList asNat) v
+
+def asRng (j : Json) : R Rng := do
+  let shuffled ← match optFld j "shuffled" with
+    | none => pure []
+    | some v => asList asStr v
+  pure { choices := (← asNatLists j "choices"), multis := (← asNatLists j "multis"), shuffled }
+
+def asLay (j : Json) : R Lay := asList (fun p => do
+  match (← asArr p) with
+  | [a, b] => pure ((← asList asNat a), (← asList asNat b))
+  | _ => .error "layout vector must be [indices, values]") j
+
+def firstFailing (cs : List (String × Bool)) : Verdict :=
+  match cs.find? (fun c => !c.2) with
+  | some c => some c.1
+  | none => none
+
+def resultToJson : Except Err View → Json
+  | .ok v => Json.mkObj [("ok", viewToJson v)]
+  | .error e => Json.mkObj [("error", e.name)]
+
+def gridJson (g : List (List Nat)) : Json := .arr (g.map natsToJson).toArray
+
+def handleTable (req : Json) : R Json := do
+  let t ← asView (← fld req "t")
+  let n ← natF req "n"
+  let mode ← asMode (← fld req "mode")
+  let rng ← asRng (← fld req "rng")
+  let lay ← match optFld req "lay" with
+    | none => pure []
+    | some v => asLay v
+  let obsJ ← fld req "obs"
+  let after ← asView (← fld obsJ "after")
+  let resJ ← fld obsJ "result"
+  let mobs := run t lay n mode rng
+  let pre := viewWF t && decide (1 ≤ n) &&
+    (match mode with
+     | .without => layOK t lay && choicesOK n (lay.map (·.2)) rng.choices
+     | .withRepl => layOK t lay && multisOK n (lay.map (·.2)) rng.multis
+     | .byId => true)
+  let modelJ := resultToJson mobs.result
+  let mh := holds t n mode mobs
+  -- the implementation's observation
+  let (verdict, agree) ← match optFld resJ "error" with
+    | some e => do
+      let es ← asStr e
+      let o : Obs := { result := .error (asErr es), after }
+      pure (firstFailing (clauses t n mode o), (resultToJson o.result).compress == modelJ.compress)
+    | none => do
+      match (← asViewOpt (← fld resJ "ok")) with
+      | none => pure (some "entries-natural", false)
+      | some r =>
+        let o : Obs := { result := .ok r, after }
+        pure (firstFailing (clauses t n mode o), (resultToJson o.result).compress == modelJ.compress)
+  pure (Json.mkObj (verdictToJson verdict ++
+    [("agree", .bool agree), ("model", modelJ), ("model_holds", .bool mh), ("pre", .bool pre)]))
+
+def gotToJson : Except Err (List (List Nat)) → Json
+  | .ok g => Json.mkObj [("ok", gridJson g)]
+  | .error e => Json.mkObj [("error", e.name)]
+
+def handleKernel (req : Json) : R Json := do
+  let vecs ← listF (asList asNat) req "vecs"
+  let n ← natF req "n"
+  let mode ← asMode (← fld req "mode")
+  let rng ← asRng (← fld req "rng")
+  let gotJ ← fld req "got"
+  let model := match mode with
+    | .withRepl => kernelWith vecs rng.multis
+    | _ => kernelWithout n vecs rng.choices
+  let pre := match mode with
+    | .withRepl => multisOK n vecs rng.multis && vecs.all (fun v => decide (0 < v.sum))
+    | _ => choicesOK n vecs rng.choices
+  let got : Option (Except Err (List (List Nat))) ← match optFld gotJ "error" with
+    | some e => do pure (some (.error (asErr (← asStr e))))
+    | none => do
+      let g ← listF (asList asRat) gotJ "ok"
+      if g.all (fun v => v.all (fun r => r.den == 1 && decide (0 ≤ r.num))) then
+        pure (some (.ok (g.map (·.map (fun r => r.num.toNat)))))
+      else pure none
+  let modelJ := gotToJson model
+  -- when the scripted generator keeps its contract, the model's answer is the histogram
+  let spec : Bool := match mode with
+    | .withRepl => true
+    | _ => !pre || kernelHolds n vecs model
+  match got with
+  | none => pure (Json.mkObj (verdictToJson (some "entries-natural") ++
+      [("agree", .bool false), ("model", modelJ), ("pre", .bool pre), ("model_holds", .bool spec)]))
+  | some g =>
+    let verdict : Verdict := match mode with
+      | .withRepl => none
+      | _ => if pre then firstFailing (kernelClauses n vecs g) else none
+    pure (Json.mkObj (verdictToJson verdict ++
+      [("agree", .bool ((gotToJson g).compress == modelJ.compress)), ("model", modelJ), ("pre", .bool pre),
+       ("model_holds", .bool spec)]))
+
+/-- `hist` of one vector, for the harness's exhaustive unit-count bookkeeping -/
+def handleHist (req : Json) : R Json := do
+  let counts ← listF asNat req "counts"
+  let chosen ← listF asNat req "chosen"
+  pure (Json.mkObj [("hist", natsToJson (hist counts chosen)), ("holds", true), ("clause", .null), ("agree", true),
+    ("model", natsToJson (hist counts chosen))])
+
+def handle (req : Json) : R Json := do
+  match (← strF req "op") with
+  | "table" => handleTable req
+  | "kernel" => handleKernel req
+  | "hist" => handleHist req
+  | s => .error s!"bad op {s}"
+
 end Biom.C12
